@@ -98,6 +98,15 @@ def _scan(node, c, in_function, protected):
     from .alias import PURE_METHODS
     harmless = {id(x.func) for x in ast.walk(node) if isinstance(x, ast.Call) and isinstance(x.func, ast.Attribute) and x.func.attr == "methodcaller"
                 and x.args and isinstance(x.args[0], ast.Constant) and x.args[0].value in PURE_METHODS}
+    if in_function:
+        # an import inside the function that binds a name the function also binds otherwise (a parameter, an assignment, a loop target):
+        # the name means the imported object from there on, whatever its other binding says
+        imported = {(a.asname or a.name).split(".")[0] for x in ast.walk(node) if isinstance(x, (ast.Import, ast.ImportFrom)) for a in x.names}
+        if imported:
+            other = {x.id for x in ast.walk(node) if isinstance(x, ast.Name) and isinstance(x.ctx, (ast.Store, ast.Del))} | \
+                {x.arg for x in ast.walk(node) if isinstance(x, ast.arg)}
+            for nm in sorted(imported & other):
+                _count_into(c, "bind-import:" + nm)
     for x in ast.walk(node):
         if id(x) in harmless:
             continue
